@@ -2,10 +2,12 @@ package syntax
 
 import (
 	"context"
+	"fmt"
 	"io"
 	"os"
 	"path"
 	"path/filepath"
+	"strings"
 	"text/scanner"
 
 	"github.com/sboehler/knut/lib/common/cpr"
@@ -81,7 +83,7 @@ func ParseFileRecursively(file string) (<-chan directives.File, func(context.Con
 	return cpr.Produce(func(ctx context.Context, ch chan<- directives.File) error {
 		wg, ctx := errgroup.WithContext(ctx)
 		wg.Go(func() error {
-			res, err := parseRec(ctx, wg, ch, file)
+			res, err := parseRec(ctx, wg, ch, file, nil)
 			if err != nil {
 				return err
 			}
@@ -96,7 +98,14 @@ type Result struct {
 	Err  error
 }
 
-func parseRec(ctx context.Context, wg *errgroup.Group, resCh chan<- directives.File, file string) (directives.File, error) {
+// parseRec parses the file and, concurrently, the files it includes. chain holds the files on the way
+// from the root journal to this file: a file that includes itself, directly or through other files, is
+// an error (it would be loaded forever).
+func parseRec(ctx context.Context, wg *errgroup.Group, resCh chan<- directives.File, file string, chain []string) (directives.File, error) {
+	if onChain(chain, filepath.Clean(file)) {
+		return directives.File{}, fmt.Errorf("include cycle: %s is included from itself (%s)", file, strings.Join(chain, " -> "))
+	}
+	own := append(chain[:len(chain):len(chain)], filepath.Clean(file))
 	text, err := os.ReadFile(file)
 	if err != nil {
 		return directives.File{}, err
@@ -109,7 +118,7 @@ func parseRec(ctx context.Context, wg *errgroup.Group, resCh chan<- directives.F
 		if inc, ok := d.Directive.(directives.Include); ok {
 			file := path.Join(filepath.Dir(file), inc.IncludePath.Content.Extract())
 			wg.Go(func() error {
-				res, err := parseRec(ctx, wg, resCh, file)
+				res, err := parseRec(ctx, wg, resCh, file, own)
 				if err != nil {
 					return err
 				}
@@ -118,6 +127,16 @@ func parseRec(ctx context.Context, wg *errgroup.Group, resCh chan<- directives.F
 		}
 	}
 	return p.ParseFile()
+}
+
+// onChain reports whether file is one of the files on the chain.
+func onChain(chain []string, file string) bool {
+	for _, f := range chain {
+		if f == file {
+			return true
+		}
+	}
+	return false
 }
 
 func FormatFile(w io.Writer, f directives.File) error {
